@@ -76,6 +76,11 @@ def assignOk (target rhs : Ty) : Bool :=
   let numericCastPossible := isNumeric target && isNumeric rhs
   !(typesDontMatch && !numericCastPossible)
 
+/-- `VisitReturnStmt` accepts the returned value: the declared type itself, or anything but
+'nichts' for a Variable result (no numeric conversion in this position) -/
+def returnOk (ret value : Ty) : Bool :=
+  !(!equal ret value && (!equal ret .variable || equal value .void))
+
 def isOneOf (t : Ty) (ts : List Ty) : Bool := ts.any (equal t)
 
 /-- `VisitCastExpr` accepts `lhs als target` (no operator overload in scope) -/
